@@ -215,6 +215,7 @@ func c19wGen(rt *rapid.T) c19wProg {
 	}
 	imm := p.NS.immutable()
 	p.Sess = append([]int(nil), gPick(rt, [][]int{{0, 1, 2, 3}, {0, 1, 2, 3}, {0, 1, 2, 3, 1}}, "layout")...)
+	gGrpc(rt, &p.wProg, 15)
 
 	// account tags as the authenticator / validators would have written them
 	var foreign []string
